@@ -25,7 +25,7 @@ RULE = ("a scenario = (continuum, dissimilarity, sampler, mode, n_samples, preci
         "os.cpu_count patched; GIL hand-offs injected (sys.monitoring LINE events) at random statement boundaries of the "
         "library's Python code inside the jobs; every run builds fresh continuum / dissimilarity objects, and two extra runs "
         "repeat the computation on the very objects of the reference run, one repeats it with a sampler object that has just served another call "
-        "(explicit ground truth) on the same continuum, one repeats it after a CBC failure injected into an unrelated alignment; one scenario in seven is large and sparse enough "
+        "(explicit ground truth) on the same continuum, one repeats it after a CBC failure injected into an unrelated alignment, one after the same continuum object served a computation with another dissimilarity of equal parameters; one scenario in seven is large and sparse enough "
         "for the fast mode to record a finite window, one has all annotators identical (observed disorder 0), one is crowded "
         "(4-5 annotators with two long units each: the shuffle sampler runs out of free pivot zones), one asks for a precision "
         "that triggers a second batch after a first batch of 5-30 samples (worker counts 1,2,3,4,5,8,16), one has tied optimal alignments that differ in "
@@ -247,7 +247,8 @@ def check_case(ctx, case):
     schedules = [["repeat-same-objects:fifo", 1, 0], ["repeat-same-objects:lifo", 3, 1]] + schedules
     # what happened earlier in the process must not matter either: the same sampler object served another call (with an explicit
     # ground truth) on the same continuum; a solver failure occurred in an unrelated computation
-    schedules = schedules[:3] + [["history:same-sampler-after-a-call-with-ground-truth", 2, 5], ["history:after-a-transient-solver-failure", 2, 6]] + schedules[3:]
+    schedules = schedules[:3] + [["history:same-sampler-after-a-call-with-ground-truth", 2, 5], ["history:after-a-transient-solver-failure", 2, 6],
+                                 ["history:same-continuum-after-an-equal-parameter-dissimilarity", 2, 7]] + schedules[3:]
     spare = None
     for k_run, (policy, workers, sseed) in enumerate(schedules):
         if k_run >= 4 and ctx.out_of_time():
@@ -262,6 +263,17 @@ def check_case(ctx, case):
                 c0.compute_gamma(d0, n_samples=2, ground_truth_annotators=sorted(c0.annotators)[-2:], sampler=sampler_obj,
                                  fast=sc["mode"] == "fast", soft=sc["mode"] == "soft")
                 dig, vals, recs, off = result_vector(ctx, sc, "fifo", workers, sseed, objects=ref_objects, sampler_obj=sampler_obj)
+            elif policy == "history:same-continuum-after-an-equal-parameter-dissimilarity":
+                # the very continuum object of the reference run first serves a computation with ANOTHER dissimilarity of the same
+                # class / delta_empty / categories / weights (another matrix, other positions), then the scenario is repeated on it
+                alt = ac.same_parameters_other_measure(random.Random(sseed), sc["dissim"])
+                if alt is None:
+                    continue
+                ctx.count("M-HISTORY")
+                d0, c0 = ref_objects
+                np.random.seed(4243)
+                c0.compute_gamma(cases.build_dissim(alt), n_samples=2, fast=sc["mode"] == "fast", soft=sc["mode"] == "soft")
+                dig, vals, recs, off = result_vector(ctx, sc, "fifo", workers, sseed, objects=ref_objects)
             elif policy == "history:after-a-transient-solver-failure":
                 ctx.count("M-HISTORY")
                 spy_, pool_ = ac.setup(ctx)
